@@ -221,11 +221,18 @@ def sort_wrappers(f):
 
 
 class _Unfold(ast.NodeTransformer):
-    def __init__(self, names):
+    def __init__(self, names, scopes=()):
         self.names = names
+        self.scopes = scopes
 
     def visit_Call(self, node):
         self.generic_visit(node)
+        if isinstance(node.func, ast.Name) and node.func.id == "sorted" and len(node.args) == 1 \
+                and [k.arg for k in node.keywords] == ["key"]:
+            from ..engine.taint import key_is_total
+            if any(key_is_total(node, sc) for sc in self.scopes if sc is not None):
+                # a key that tells any two ids apart: another total order, still an order
+                return ast.copy_location(ast.Call(func=node.func, args=node.args, keywords=[]), node)
         if isinstance(node.func, ast.Name) and node.func.id in self.names and len(node.args) == 1:
             return ast.copy_location(ast.Call(func=ast.Name(id="sorted", ctx=ast.Load()),
                                               args=node.args, keywords=[]), node)
@@ -236,9 +243,11 @@ def unfold_sorts(f, node):
     """a copy of *node* in which calls of the sort wrappers of *f* read sorted(<arg>)"""
     import copy
     names = sort_wrappers(f)
-    if not names:
+    has_key = any(isinstance(x, ast.Call) and dotted(x.func) == "sorted" and x.keywords for x in ast.walk(node))
+    if not names and not has_key:
         return node
-    return ast.fix_missing_locations(_Unfold(names).visit(copy.deepcopy(node)))
+    return ast.fix_missing_locations(
+        _Unfold(names, (f.node, f.module.tree)).visit(copy.deepcopy(node)))
 
 
 def _sorted(run, P):
